@@ -156,7 +156,9 @@ class C16(Check):
     level_text = ('all 16 shipped topologies and every generated file (2 headers x all section sequences of length <= 4 '
                   '(quick, plus length 5 with <= 2 sections off the plain template) / <= 5 (thorough, all) over moleculetype, '
                   'atoms, bonds*, dihedrals* x 7 line templates per section x final newline or not) are written and re-read '
-                  'twice by the real code; a coverage statement over that finite space')
+                  'twice by the real code, plus two small families on moleculetype, atoms, bonds, dihedrals: comment text that '
+                  'begins with "#" (trailing and comment-only) and indented directives; a coverage statement over that '
+                  'finite space')
     level_note = ('trusted: the reference reader mcx/ref/itp.py (self-tested). Reading of the statement: an item is a content '
                   'line (tokens + its trailing comment), a non-empty comment-only line or a preprocessor line; blank lines '
                   'and empty comments are not items; comment text is compared per ;-part after white-space normalisation '
@@ -166,11 +168,18 @@ class C16(Check):
                   'on a section header line ("[moleculetype] ; text", vitamin_E_CG.itp line 1) is NOT an item - the '
                   'library drops it - it is counted as section_header_comments_not_compared. p1 is read right after '
                   'write() returns: the library never closes the handle explicitly, under CPython it is released on '
-                  'return. read_topology of the original and of p1 is handed the ItpFile object the library has just parsed from that same file (for writing) instead of parsing it again; p2 is parsed afresh. Not covered: other comment texts than the templates, CRLF, names outside the alphabet')
+                  'return. read_topology of the original and of p1 is handed the ItpFile object the library has just '
+                  'parsed from that same file (for writing) instead of parsing it again; p2 is parsed afresh. A file '
+                  'with several [ moleculetype ] sections is merged per section name by the library: that satisfies the '
+                  'statement as worded (items per section name) and is not generated. Not covered: other comment texts '
+                  'than the templates, CRLF, section names outside the alphabet')
     assumptions = ['generated files use 7 line templates applied uniformly to all content lines of a section occurrence',
                    'comment texts are plain words, plus the family whose comment text begins with "#"']
 
     _dir = None
+
+    def setup(self, tier, seed):
+        assert itp.selftest()
 
     def units(self, tier, seed):
         import gaddlemaps
@@ -180,7 +189,8 @@ class C16(Check):
         self.bounds = {'shipped_files': shipped, 'sections_max': 5, 'full_template_product_upto_sections': 5 if thorough else 4,
                        'template_deviations_beyond': 2, 'templates': list(TEMPLATES), 'section_alphabet':
                        ['moleculetype', 'atoms', 'bonds', 'dihedrals', 'dihedrals (again)', 'bonds (again)'],
-                       'headers': 2, 'final_newline': 2, 'hash_comment_templates': list(HASH_TEMPLATES), 'indented_directive_template': 'one section at a time'}
+                       'headers': 2, 'final_newline': 2, 'hash_comment_templates': list(HASH_TEMPLATES),
+                       'indented_directive_template': 'one section at a time'}
         u = [{'k': 'shipped', 'file': f, 'size': os.path.getsize(os.path.join(data, f))} for f in shipped]
         u.sort(key=lambda x: -x['size'])
         for extra in (3, 2, 1, 0):
@@ -255,6 +265,11 @@ class C16(Check):
             with open(src, 'w', encoding='utf-8') as fh:
                 fh.write(text)
             sigs, outcome, A = roundtrip(src, text, d)
+            if prefix and sigs:           # already wrong with plain lines: the main family reports it
+                with open(src, 'w', encoding='utf-8') as fh:
+                    fh.write(render(secs, ['plain'] * len(secs), hdr, nl))
+                if roundtrip(src, render(secs, ['plain'] * len(secs), hdr, nl), d)[0]:
+                    sigs = []
             nontrivial = repeated or bool(hdr) or not nl or any(t != 'plain' for t in tpls)
             R.case(cdesc, nontrivial=nontrivial, outcome=outcome,
                    cls='hash' if case.get('hash') else 'indent' if case.get('indent') else 'gen/L%d/%s' % (len(secs), 'repeated' if repeated else 'single'))
